@@ -14,7 +14,8 @@
 (***************************************************************************)
 EXTENDS PmProps, SequencesExt
 
-CONSTANTS KillChecksAlive, Cfgs, MaxTicks, MaxEnvPerPos, AllowedViol
+CONSTANTS KillChecksAlive, Cfgs, MaxTicks, MaxEnvPerPos, AllowedViol,
+          BootDeaths   \* TRUE: a replacement may crash while booting (dead before the manager first looks at it)
 
 VARIABLES cfg, slot, q, phase, tick, restarts, nextPid, envn, out, obs, viol
 kvars == <<cfg, slot, q, phase, tick, restarts, nextPid, envn>>
@@ -98,18 +99,26 @@ DrainRun(st) ==
                     THEN [s2 EXCEPT !.evs = Append(@, [E0 EXCEPT !.e = "ret", !.n = -1]), !.ret = -1]
                     ELSE IF a.w \in s2.reloaded THEN DrainRun(s2)
                     ELSE LET old == s2.slot[a.w]
-                             new == [pid |-> s2.nextPid, alive |-> TRUE, reaped |-> FALSE]
+                             boots == a.w \in s2.boot      \* environment choice of this tick: the replacement dies while booting
+                             new == [pid |-> s2.nextPid, alive |-> ~boots, reaped |-> boots]   \* the startup wait polls (and reaps) it
                          IN DrainRun([s2 EXCEPT !.slot[a.w] = new, !.nextPid = @ + 1, !.reloaded = @ \cup {a.w},
                                                 !.evs = @ \o <<[E0 EXCEPT !.e = "terminate", !.pid = old.pid],
                                                                [E0 EXCEPT !.e = "join", !.pid = old.pid],
-                                                               [E0 EXCEPT !.e = "start", !.slot = a.w, !.pid = s2.nextPid]>>])
+                                                               [E0 EXCEPT !.e = "start", !.slot = a.w, !.pid = s2.nextPid]>>
+                                                         \o (IF boots THEN <<[E0 EXCEPT !.e = "die", !.slot = a.w, !.pid = s2.nextPid, !.s = "boot"],
+                                                                               [E0 EXCEPT !.e = "found_dead", !.slot = a.w, !.pid = s2.nextPid]>>
+                                                             ELSE <<>>)])
 
+BootChoices == IF BootDeaths THEN SUBSET (0..(W - 1)) ELSE {{}}
 Drain ==
   /\ phase = "sleep"
-  /\ LET st == DrainRun([q |-> q, slot |-> slot, restarts |-> restarts, reloaded |-> {}, nextPid |-> nextPid, evs |-> <<>>, ret |-> 2])
-     IN /\ q' = st.q /\ slot' = st.slot /\ restarts' = st.restarts /\ nextPid' = st.nextPid
-        /\ phase' = IF st.ret = 2 THEN "drained" ELSE "done"
-        /\ Emit(st.evs)
+  /\ \E bs \in BootChoices :
+       LET st == DrainRun([q |-> q, slot |-> slot, restarts |-> restarts, reloaded |-> {}, nextPid |-> nextPid, evs |-> <<>>, ret |-> 2,
+                           boot |-> bs])
+       IN /\ bs \subseteq st.reloaded        \* only replacements that were actually started can die at boot
+          /\ q' = st.q /\ slot' = st.slot /\ restarts' = st.restarts /\ nextPid' = st.nextPid
+          /\ phase' = IF st.ret = 2 THEN "drained" ELSE "done"
+          /\ Emit(st.evs)
   /\ envn' = 0
   /\ UNCHANGED <<cfg, tick>>
 
